@@ -553,6 +553,13 @@ def oracle_crossing(view, x, rec, tag):
         if abs(rec['pch_out_attr'][i] - rec['out'][i]) > TOL or abs(rec['loss_attr'][i] - (rec['pin'][i] - rec['out'][i])) > TOL:
             fails.append(('report', f'{tag}: pch_out_dbm / loss_pch_db do not describe what was done to carrier {i}'))
             break
+    if not fails:
+        rc = view['ref_carrier'] or {'baud_rate': 1.0, 'slot_width': 1.0}
+        exp_ref = min(view['ref_in'][x['from']] - max(losses), target_of(pol, rc['baud_rate'], rc['slot_width']))
+        if abs(rec['ref_out'] - exp_ref) > TOL or abs(rec['ref_loss'] - (view['ref_in'][x['from']] - exp_ref)) > TOL:
+            fails.append(('reference_channel', f"{tag}: ref_pch_out_dbm {rec['ref_out']:.9f} / ref_effective_loss "
+                                               f"{rec['ref_loss']:.9f}, expected {exp_ref:.9f}"))
+    for i in range(n if not fails else 0):
         # PMD / PDL of the internal path are added in quadrature (secondary clause)
         for key, obs2, base in (('pmd', rec['pmd2'][i], 1e-12), ('pdl', rec['pdl2'][i], 0.1)):
             imp = next((b.get(key, view[key]) for b in bands
@@ -565,6 +572,19 @@ def oracle_crossing(view, x, rec, tag):
 
 def count_pol(d):
     return sum(1 for k in POL if k in d), sum(1 for k in POL if d.get(k) is not None)
+
+
+def oracle_A(case, obs):
+    """single-policy clause on a directly constructed element (RoadmParams)"""
+    _, nv = count_pol(case['policy'])
+    rejected = obs['stage'] is not None and obs['stage'][0] == 'params'
+    if nv > 1 and not rejected:
+        return [('invalid_policy_accepted', f"{nv} node-level policies {case['policy']} accepted (in force: {obs.get('node')})")]
+    if nv <= 1 and rejected:
+        return [('valid_policy_rejected', f"{case['policy']}: {obs['stage'][1]}: {obs['stage'][2]}")]
+    if not rejected and obs.get('node') != [case['policy'].get(k) for k in POL]:
+        return [('policy_in_force', f"node policy {obs.get('node')} but configuration says {case['policy']}")]
+    return []
 
 
 def oracle_L(case, obs):
@@ -832,6 +852,8 @@ def run(ctx):
             ctx.count('A_cases')
             if obs['stage']:
                 ctx.count(f"A_rejected_{obs['stage'][1]}")
+            for key, desc in oracle_A(c, obs):
+                ctx.violation(key, desc, pub)
         else:
             obs = drive_L(c, rng_mod)
             xs = obs['xs']
